@@ -22,6 +22,9 @@ from vlib import runner, pipeline, world
 LEVEL = "exploration"
 
 
+N_EXP = 8      # experiments of the long run of the superseded-record scenario
+
+
 def make_inputs(d, seed, k):
     w = world.standard_world(seed + k, n_chroms=2, genes_per_chrom=3, hidden=False)
     world.add_standard_reads(w, per_transcript=3, jitter=2)
@@ -260,10 +263,69 @@ def run(chk, scratch):
                 chk.violation("database-unreadable", "%s: run %s used %s: %r" % (desc, name, db, e), wit)
         chk.count("stale_database_sequences")
         shutil.rmtree(rdir, ignore_errors=True)
+    # a run that works with a database found through the cache (converted by an earlier, finished run A into A's folder) while another run
+    # on the same annotation, whose options make the record unusable for it (--complete_genedb off), converts again and replaces the record
+    for qi, k in enumerate((4, 5) if thorough else (4,)):
+        rdir = os.path.join(scratch, "superseded%d" % qi)
+        home = os.path.join(rdir, "home")
+        os.makedirs(home)
+        d = os.path.join(pool, "in%d" % k)
+        lst = os.path.join(rdir, "exps.list")
+        with open(lst, "w") as f:
+            for e in range(N_EXP):
+                f.write("#EX%d\n%s\n" % (e, os.path.join(d, "r.bam")))
+        desc = "superseded-record scenario %d: A (finished) converted annotation %d; B (%d experiments) uses A's database; C converts it again without --complete_genedb" % (qi, k, N_EXP)
+        wit = {"scenario": "superseded-record", "input": k}
+        solo_b = runner.run_isoquant(pipeline.std_args(d, os.path.join(rdir, "solo_b"), threads=1, bam_list=lst), os.path.join(rdir, "home_b"))
+        solo_c = runner.run_isoquant(pipeline.std_args(d, os.path.join(rdir, "solo_c"), threads=1, complete=False), os.path.join(rdir, "home_c"))
+        ra = pipeline.run(d, os.path.join(rdir, "OUT_A"), threads=1, home=home)
+        if any(r["rc"] != 0 for r in (solo_b, solo_c, ra)):
+            chk.inconclusive.append("%s: a preparatory run failed" % desc)
+            continue
+        db_a = os.path.join(rdir, "OUT_A", "a.db")
+        t0 = time.time() + 1.0
+
+        def bc(which):
+            if which == "B":
+                return which, runner.run_isoquant(pipeline.std_args(d, os.path.join(rdir, "OUT_B"), threads=1, bam_list=lst), home, mon=["cache"],
+                                                  cfg={"cache_seed": 1, "cache_max_delay": 0.0}, env_extra={"VERIF_RUN_ID": "B", "VERIF_START_AT": str(t0)}, cwd=rdir)
+            # C starts as soon as B has reported the database it found through the cache
+            logp = os.path.join(rdir, "OUT_B", "isoquant.log")
+            for _ in range(400):
+                if os.path.exists(logp) and db_a in open(logp).read():
+                    break
+                time.sleep(0.05)
+            return which, runner.run_isoquant(pipeline.std_args(d, os.path.join(rdir, "OUT_C"), threads=1, complete=False), home, mon=["cache"],
+                                              cfg={"cache_seed": 2, "cache_max_delay": 0.0}, env_extra={"VERIF_RUN_ID": "C"}, cwd=rdir)
+        res = dict(runner.parallel(bc, ["B", "C"], workers=2))
+        used_a = ("Using " + db_a) in res["B"]["out"] or db_a in res["B"]["out"]
+        if not used_a:
+            chk.inconclusive.append("%s: B did not pick A's database from the cache" % desc)
+        for which, solo_out in (("B", "solo_b"), ("C", "solo_c")):
+            r = res[which]
+            chk.note()
+            if r["rc"] is None:
+                chk.inconclusive.append("watchdog expired: %s run %s" % (desc, which))
+                continue
+            if r["rc"] != 0:
+                m = re.findall(r"(\w+Error)", r["out"])
+                chk.violation("concurrent-run-failed:superseded-record:" + (m[-1] if m else "exit%s" % r["rc"]),
+                              "%s: run %s exited %s: %s" % (desc, which, r["rc"], r["out"][-400:].replace("\n", " | ")), wit)
+                continue
+            prefixes = ["EX%d" % e for e in range(N_EXP)] if which == "B" else [pipeline.PREFIX]
+            for pf in prefixes:
+                for rel, why in runner.compare_trees(os.path.join(rdir, solo_out, pf), os.path.join(rdir, "OUT_" + which, pf))[:4]:
+                    chk.violation("concurrent-output-differs:superseded-record:" + (rel.split(".", 1)[1] if "." in rel else rel),
+                                  "%s: run %s file %s/%s %s compared with the same run executed alone" % (desc, which, pf, rel, why), wit)
+        # observation only (A is not one of the simultaneously executing runs the statement speaks about)
+        chk.extra.setdefault("database_of_finished_run_still_present", []).append(os.path.exists(db_a))
+        chk.count("superseded_record_scenarios", 1 if used_a else 0)
+        shutil.rmtree(rdir, ignore_errors=True)
     for mi in range(6 if thorough else 2):
         mapper_cache_round(chk, scratch, mi, (4, 8, 12)[mi % 3], chk.seed * 10 + mi)
     chk.extra.update({"rounds": len(rounds), "rounds_with_overlapping_windows": overlapping_rounds, "cache_parse_errors_seen": parse_errors})
     chk.assumptions = ["lost cache entries are not a violation (cache efficiency is outside the property)",
                        "delays are injected only where a process can really be pre-empted (between two system calls)"]
     chk.inconclusive_if(overlapping_rounds == 0, "no round with overlapping read-modify-write windows")
+    chk.inconclusive_if(chk.extra.get("superseded_record_scenarios", 0) == 0, "no scenario in which a run worked with a cached database while its record was replaced")
     chk.min_nontrivial = 2
